@@ -21,6 +21,68 @@ CODES = [0, 1, 2, 127, 255, -9, -15]
 STREAM = ["ok", "other", "watcher", "rna"]      # rna = ResponseNotAccepted (a WatcherError)
 VIAS = ["runner", "ctx_run", "ctx_sudo"]
 ASYNCS = [False, "join", "with"]
+# where warn comes from: run.warn in the configuration (None = configured nowhere) x the keyword of the call
+# ("omitted" = not passed; None = passed as None, what a wrapper forwarding an optional setting does)
+WARN_CFGS = [None, False, True]
+WARN_KWS = ["omitted", None, True, False]
+WARN_PAIRS = [(cfg, kw) for cfg in WARN_CFGS for kw in WARN_KWS]
+HIDE_FROMS = ["kwarg", "config", "config+none"]      # config+none: configured, and the call passes hide=None
+
+
+def kw_given(kw):
+    return isinstance(kw, bool)
+
+
+def warn_parts(case):
+    """(configured run.warn or None, keyword) of a case; cases written before the dimension existed carry
+    'warn' (+ 'opts_from')"""
+    if "warn_kw" in case:
+        return case.get("warn_cfg"), case["warn_kw"]
+    w = bool(case.get("warn", False))
+    return (w, "omitted") if case.get("opts_from") == "config" else (None, w)
+
+
+def warn_effective(case):
+    cfg, kw = warn_parts(case)
+    return kw if kw_given(kw) else bool(cfg)
+
+
+def as_pair(warn):
+    return tuple(warn) if isinstance(warn, (tuple, list)) else (None, bool(warn))
+
+
+def pick_warn(rng, eff=None):
+    pairs = [w for w in WARN_PAIRS if eff is None or (w[1] if kw_given(w[1]) else bool(w[0])) == eff]
+    return rng.choice(pairs)
+
+
+def call_opts(case):
+    """(run.* configuration, keyword arguments) carrying warn and hide the way the case says"""
+    cfg, kw = warn_parts(case)
+    run, kws = {}, {}
+    if cfg is not None:
+        run["warn"] = cfg
+    if kw_given(kw) or kw is None:
+        kws["warn"] = kw
+    hf = case.get("hide_from") or ("config" if case.get("opts_from") == "config" else "kwarg")
+    if hf == "kwarg":
+        kws["hide"] = case["hide"]
+    else:
+        run["hide"] = case["hide"]
+        if hf == "config+none":
+            kws["hide"] = None
+    return run, kws
+
+
+def coq_kw(kw):
+    return "(KwVal %s)" % ct.b(kw) if kw_given(kw) else "KwNone" if kw is None else "KwOmitted"
+
+
+def coq_ws(case):
+    cfg, kw = warn_parts(case)
+    return "(mkWs %s %s)" % (ct.opt(None if cfg is None else ct.b(cfg)), coq_kw(kw))
+
+
 PROGRAM_EVENTS = (
     [{"ev": "success"}, {"ev": "parse"}, {"ev": "kbd"}, {"ev": "core_parse"}, {"ev": "nocoll"},
      {"ev": "warn_flag", "code": 3}, {"ev": "warn_config", "code": 4},
@@ -28,7 +90,10 @@ PROGRAM_EVENTS = (
     [{"ev": "unexpected", "code": c, "via": "raise"} for c in (1, 2, 17, 127, 255, -9, -15)] +
     [{"ev": "unexpected", "code": c, "via": "run"} for c in (1, 3, 42, 200, 255)] +
     [{"ev": "exit", "code": c, "msg": m} for c in (None, 0, 1, 5, 99, 255) for m in (None, "", "bye")] +
-    [{"ev": "other", "cls": c} for c in ("CommandTimedOut", "Failure", "ThreadException", "ValueError")]
+    [{"ev": "other", "cls": c} for c in ("CommandTimedOut", "Failure", "ThreadException", "ValueError")] +
+    # one task running one command with warn=<kw>, with / without -w, run.warn configured on the collection or not
+    [{"ev": "warn_src", "flag": f, "cfg": cfg, "kw": kw, "code": c}
+     for f in (False, True) for cfg, kw in WARN_PAIRS for c in (0, 7)]
 )
 
 
@@ -122,7 +187,11 @@ class C05(Prop):
             "foreign exceptions; (stdin) real children that close stdin at once / read one byte / never read while "
             "run() still feeds an in_stream; (core) real pty children dumping core; (decode) Local.returncode under "
             "a pty driven with the wait status of every exit code and of every signal with and without the core "
-            "flag.  A returned or carried result must be complete: command, pty, stdout, stderr, encoding, hide, "
+            "flag; (warn source) warn decided from configured run.warn {unset, False, True} x the call's keyword "
+            "{omitted, None, True, False} -- the whole table through Runner.run / Context.run / Context.sudo / "
+            "Promise.join, real children with and without a pty, and Program.run with / without -w on a task "
+            "that runs one command with that keyword; hide from keyword / configuration / configuration with "
+            "hide=None passed; the timeout from keyword or timeouts.command.  A returned or carried result must be complete: command, pty, stdout, stderr, encoding, hide, "
             "shell, env as run.  non-trivial = anything but a plain zero exit; distinct by the whole case")
     trusted_base = [
         "Coq 8.16.1 kernel + vm_compute (shard evaluation)",
@@ -164,7 +233,9 @@ class C05(Prop):
     # -------------------------------------------------------------------- cases
     @staticmethod
     def _real(how, n, pty, warn, hide=None, asyn=False, nofileno=False, stdin=None, core=False):
-        c = {"kind": "real", "how": how, "n": n, "pty": pty, "warn": warn, "hide": hide, "async": asyn}
+        cfg, kw = as_pair(warn)          # warn: a bool (keyword, nothing configured) or (configured, keyword)
+        c = {"kind": "real", "how": how, "n": n, "pty": pty, "warn_cfg": cfg, "warn_kw": kw, "hide": hide,
+             "async": asyn}
         if nofileno:
             c["nofileno"] = True        # sys.stdin without fileno(): pty=True falls back to no pty
         if stdin:
@@ -179,35 +250,60 @@ class C05(Prop):
 
     @staticmethod
     def _scripted(out, err, timeout, timed_out, code, warn, hide=None, asyn=False, via="runner",
-                  opts_from="kwarg"):
+                  hide_from="kwarg", timeout_from="kwarg"):
         if via == "ctx_sudo":
             asyn = False          # a promise returned by sudo() is joined outside sudo's own handler
+        cfg, kw = as_pair(warn)
         return {"kind": "scripted", "out": out, "err": err, "timeout": timeout, "timed_out": timed_out,
-                "code": code, "warn": warn, "hide": hide, "async": asyn, "via": via, "opts_from": opts_from}
+                "code": code, "warn_cfg": cfg, "warn_kw": kw, "hide": hide, "async": asyn, "via": via,
+                "hide_from": hide_from, "timeout_from": timeout_from}
+
+    def warn_family(self, tier, rng=None):
+        """configured run.warn {unset, False, True} x keyword {omitted, None, True, False}, whole, through every
+        way of running a command"""
+        thorough = tier == "thorough"
+        hide = (lambda: rng.choice(HIDES)) if rng else (lambda: None)
+        hfrom = (lambda: rng.choice(HIDE_FROMS)) if rng else (lambda: "kwarg")
+        asyncs = ASYNCS if thorough else (False, "join")
+        for w in WARN_PAIRS:
+            for code in ((0, 1, 3, 255, -9) if thorough else (0, 3)):
+                for via in VIAS:
+                    for asyn in (asyncs if via != "ctx_sudo" else (False,)):
+                        yield self._scripted("ok", "ok", None, False, code, w, hide(), asyn, via, hfrom())
+            # the failures that do not depend on warn, whatever its source
+            yield self._scripted("ok", "ok", 5, True, 1, w, hide(), False, "runner", hfrom())
+            yield self._scripted("watcher", "ok", None, False, 1, w, hide(), False, "ctx_run", hfrom())
+            for code in ((0, 3, 255) if thorough else (0, 3)):
+                for pty in (False, True):
+                    for asyn in asyncs:
+                        yield self._real("exit", code, pty, w, hide(), asyn)
+            yield self._real("signal", 15, False, w, hide(), False)
 
     def generate(self, rng, tier, n):
         thorough = tier == "thorough"
         asy = lambda: rng.choice(ASYNCS) if rng.random() < 0.45 else False
+        W = lambda eff=None: pick_warn(rng, eff)      # a random source of warn (with that effective value)
+        yield from self.warn_family(tier, rng)
         # every exit code and terminating signal, pty on/off
         for code in range(256):
             for pty in (False, True):
                 if thorough:
                     for warn in (False, True):
                         for asyn in ASYNCS:
-                            yield self._real("exit", code, pty, warn, rng.choice(HIDES), asyn)
+                            yield self._real("exit", code, pty, W(warn), rng.choice(HIDES), asyn)
                 else:
-                    yield self._real("exit", code, pty, rng.random() < 0.5, rng.choice(HIDES), asy())
+                    yield self._real("exit", code, pty, W(), rng.choice(HIDES), asy())
         for sig in TERM_SIGNALS:
             for pty in (False, True):
                 if thorough:
                     for warn in (False, True):
-                        yield self._real("signal", sig, pty, warn, rng.choice(HIDES), asy())
+                        yield self._real("signal", sig, pty, W(warn), rng.choice(HIDES), asy())
                 else:
-                    yield self._real("signal", sig, pty, rng.random() < 0.5, rng.choice(HIDES), asy())
+                    yield self._real("signal", sig, pty, W(), rng.choice(HIDES), asy())
         # pty requested while sys.stdin has no fileno(): the runner falls back to a plain subprocess
         for code in ([0, 1, 3, 127, 255] if not thorough else range(0, 256, 5)):
             for warn in (False, True):
-                yield self._real("exit", code, True, warn, rng.choice(HIDES), asy(), nofileno=True)
+                yield self._real("exit", code, True, W(warn), rng.choice(HIDES), asy(), nofileno=True)
         for sig in (9, 15):
             yield self._real("signal", sig, True, True, None, False, nofileno=True)
         # the child ends without consuming the input run() feeds it: the exit status still decides
@@ -215,12 +311,12 @@ class C05(Prop):
             for pty in (False, True):
                 for warn in (False, True):
                     for mode in STDINS:
-                        yield self._real("exit", code, pty, warn, rng.choice(HIDES),
+                        yield self._real("exit", code, pty, W(warn), rng.choice(HIDES),
                                          asy() if thorough else False, stdin=mode)
         # real pty / plain children that dump core
         for sig in ((6, 8, 11) if not thorough else CORE_SIGNALS):
             for pty in (True, False):
-                yield self._real("signal", sig, pty, rng.random() < 0.5, rng.choice(HIDES), False, core=True)
+                yield self._real("signal", sig, pty, W(), rng.choice(HIDES), False, core=True)
         # Local.returncode under a pty, every wait status the OS contract allows
         for code in range(256):
             yield self._decode("exit", code)
@@ -230,13 +326,19 @@ class C05(Prop):
         # Program.run
         for ev in PROGRAM_EVENTS:
             yield {"kind": "program", "event": ev}
+        if thorough:
+            for f in (False, True):
+                for cfg, kw in WARN_PAIRS:
+                    for c in (1, 3, 255):
+                        yield {"kind": "program", "event": {"ev": "warn_src", "flag": f, "cfg": cfg, "kw": kw,
+                                                            "code": c}}
         # scripted truth table: random sample (the whole table is enumerate_small)
         for _ in range(n):
             w = [0.64, 0.12, 0.12, 0.12]
             yield self._scripted(rng.choices(STREAM, w)[0], rng.choices(STREAM, w)[0], rng.choice([None, 5]),
                                  rng.random() < 0.5, rng.choice(CODES + list(range(3, 9))),
-                                 rng.random() < 0.5, rng.choice(HIDES), asy(),
-                                 rng.choice(VIAS), rng.choice(["kwarg", "config"]))
+                                 W(), rng.choice(HIDES), asy(),
+                                 rng.choice(VIAS), rng.choice(HIDE_FROMS), rng.choice(["kwarg", "config"]))
 
     def enumerate_small(self, tier):
         import random
@@ -246,13 +348,16 @@ class C05(Prop):
                     STREAM, STREAM, [None, 5], [False, True], CODES, [False, True]):
                 for via in VIAS:
                     for asyn in (ASYNCS if via != "ctx_sudo" else [False]):
-                        yield self._scripted(out, err, timeout, to, code, warn, rng.choice(HIDES), asyn, via,
+                        yield self._scripted(out, err, timeout, to, code, pick_warn(rng, warn),
+                                             rng.choice(HIDES), asyn, via, rng.choice(HIDE_FROMS),
                                              rng.choice(["kwarg", "config"]))
+            yield from self.warn_family(tier)
             return
         for out, err, timeout, to, code, warn in itertools.product(
                 STREAM, STREAM, [None, 5], [False, True], [0, 1, -9], [False, True]):
             for via in VIAS:
                 yield self._scripted(out, err, timeout, to, code, warn, None, False, via)
+        yield from self.warn_family(tier)
         for ev in PROGRAM_EVENTS:
             yield {"kind": "program", "event": ev}
         for code in (0, 1, 255):
@@ -278,7 +383,9 @@ class C05(Prop):
         from invoke.runners import Local
         if not hasattr(self, "scratch"):
             self.setup("quick", 0)
-        runner = Local(Context())
+        from invoke.config import Config
+        run_cfg, opt_kw = call_opts(case)
+        runner = Local(Context(Config(overrides={"run": run_cfg}) if run_cfg else None))
         say = "printf c05out; printf c05err >&2; "
         if case["how"] == "exit":
             mode = case.get("stdin")
@@ -292,8 +399,7 @@ class C05(Prop):
                 say, pre, sys.executable, case["n"], case["n"])
         out_s, err_s = io.StringIO(), io.StringIO()
         in_stream = io.StringIO(STDIN_TEXT) if case.get("stdin") else False
-        kw = dict(pty=case["pty"], warn=case["warn"], hide=case["hide"], in_stream=in_stream,
-                  out_stream=out_s, err_stream=err_s)
+        kw = dict(pty=case["pty"], in_stream=in_stream, out_stream=out_s, err_stream=err_s, **opt_kw)
 
         eff_pty = case["pty"] and not case.get("nofileno")
 
@@ -398,14 +504,16 @@ class C05(Prop):
                 pass
 
         via = case.get("via", "runner")
-        opts = dict(warn=case["warn"], hide=case["hide"])
-        kw = dict(in_stream=False, timeout=case["timeout"],
-                  out_stream=io.StringIO(), err_stream=io.StringIO())
+        run_cfg, opt_kw = call_opts(case)       # warn / hide: configuration and / or keyword
+        kw = dict(in_stream=False, out_stream=io.StringIO(), err_stream=io.StringIO(), **opt_kw)
         overrides = {"runners": {"local": Scripted}}
-        if case.get("opts_from", "kwarg") == "config":
-            overrides["run"] = dict(opts)          # warn / hide come from the configuration
+        if run_cfg:
+            overrides["run"] = run_cfg
+        if case.get("timeout_from", "kwarg") == "config":
+            if case["timeout"] is not None:
+                overrides["timeouts"] = {"command": case["timeout"]}      # no keyword: the configured one counts
         else:
-            kw.update(opts)
+            kw["timeout"] = case["timeout"]
         ctx = Context(config=Config(overrides=overrides))
         want_out = "<out>" if case["out"] == "ok" else ""
         want_err = "<err>" if case["err"] == "ok" else ""
@@ -464,6 +572,11 @@ class C05(Prop):
                 r = c.run("exit %d" % ev["code"], in_stream=False)      # warn comes from -w / the configuration
                 ran.append(r.exited)
                 return
+            if k == "warn_src":
+                kws = {"warn": ev["kw"]} if (kw_given(ev["kw"]) or ev["kw"] is None) else {}
+                r = c.run("exit %d" % ev["code"], in_stream=False, **kws)
+                ran.append(r.exited)
+                return
             if k == "multi" and ev["first"] == "ok":
                 ran.append("t")
                 return
@@ -479,13 +592,15 @@ class C05(Prop):
         coll = Collection(t, t2)
         if ev["ev"] == "warn_config":
             coll.configure({"run": {"warn": True}})
+        if ev["ev"] == "warn_src" and ev["cfg"] is not None:
+            coll.configure({"run": {"warn": ev["cfg"]}})
         argv = ["inv", "t"]
         program = Program(namespace=coll)
         if ev["ev"] == "parse":
             argv = ["inv", "t", "--no-such-flag"]
         elif ev["ev"] == "core_parse":
             argv = ["inv", "--command-timeout"]              # a core flag that lacks its value
-        elif ev["ev"] == "warn_flag":
+        elif ev["ev"] == "warn_flag" or (ev["ev"] == "warn_src" and ev["flag"]):
             argv = ["inv", "-w", "t"]
         elif ev["ev"] == "multi":
             argv = ["inv", "t", "t2"]
@@ -498,7 +613,7 @@ class C05(Prop):
             try:
                 program.run(argv)
                 out = {"returns": True}
-                if ev["ev"] in ("warn_flag", "warn_config") and ran != [ev["code"]]:
+                if ev["ev"] in ("warn_flag", "warn_config", "warn_src") and ran != [ev["code"]]:
                     out = {"propagates": "command-not-run-as-expected"}
                 if ev["ev"] == "multi":
                     out = {"propagates": "second-task-did-not-fail"}
@@ -525,7 +640,7 @@ class C05(Prop):
                                               "DBad" if isinstance(rc, str) else "(DCode %s)" % coq_optz(rc))
         if k == "real":
             e = "(Exited %s)" % ct.z(case["n"]) if case["how"] == "exit" else "(Killed %s)" % ct.z(case["n"])
-            return "(CReal %s %s %s %s %s)" % (e, ct.b(case["pty"] and not case.get("nofileno")), ct.b(case["warn"]),
+            return "(CReal %s %s %s %s %s)" % (e, ct.b(case["pty"] and not case.get("nofileno")), coq_ws(case),
                                              coq_optz(obs["raw"]), coq_outcome(obs["outcome"]))
         if k == "scripted":
             te = sum(1 for w in ("out", "err") if case[w] == "other")
@@ -533,9 +648,15 @@ class C05(Prop):
             first_rna = bool(werrs) and werrs[0] == "rna"
             sit = "(mkSit %s %s %s %s %s %s %s %s)" % (
                 ct.n(te), ct.n(len(werrs)), ct.b(case["timeout"] is not None), ct.b(case["timed_out"]),
-                ct.z(case["code"]), ct.b(case["warn"]), ct.b(case.get("via") == "ctx_sudo"), ct.b(first_rna))
-            return "(CScripted %s %s)" % (sit, coq_outcome(obs["outcome"]))
+                ct.z(case["code"]), ct.b(False), ct.b(case.get("via") == "ctx_sudo"), ct.b(first_rna))
+            return "(CScripted %s %s %s)" % (sit, coq_ws(case), coq_outcome(obs["outcome"]))
         ev = case["event"]
+        if ev["ev"] == "warn_src":
+            o = obs["prog"]
+            po = "PReturns" if "returns" in o else "(PSysExit %s)" % ct.z(o["sysexit"]) if "sysexit" in o \
+                else "PPropagates"
+            return "(CProgRun %s %s %s %s %s)" % (ct.b(ev["flag"]), ct.opt(None if ev["cfg"] is None else ct.b(ev["cfg"])),
+                                                 coq_kw(ev["kw"]), ct.z(ev["code"]), po)
         if ev["ev"] in ("success", "warn_flag", "warn_config"):
             e = "PSuccess"
         elif ev["ev"] == "multi":
@@ -573,7 +694,8 @@ class C05(Prop):
         if k == "scripted":
             return case["code"] != 0 or case["out"] != "ok" or case["err"] != "ok" or \
                 (case["timed_out"] and case["timeout"] is not None)
-        return case["event"]["ev"] != "success"
+        ev = case["event"]
+        return ev["ev"] != "success" and not (ev["ev"] == "warn_src" and ev["code"] == 0)
 
     def classify(self, case, obs):
         k = case["kind"]
@@ -594,14 +716,37 @@ class C05(Prop):
 
     def shrink_candidates(self, case):
         k = case["kind"]
-        if k in ("program", "decode"):
+        if k == "program":
+            ev = case["event"]
+            if ev["ev"] == "warn_src":
+                for key, simple in (("flag", False), ("cfg", None), ("kw", "omitted"), ("code", 1)):
+                    if ev[key] != simple or type(ev[key]) is not type(simple):
+                        yield {"kind": "program", "event": dict(ev, **{key: simple})}
             return
+        if k == "decode":
+            return
+        cfg, kw = warn_parts(case)
+        base = {x: y for x, y in case.items() if x not in ("warn", "opts_from")}
+        if "warn_kw" not in case:
+            base["hide_from"] = "config" if case.get("opts_from") == "config" else "kwarg"
+        case = dict(base, warn_cfg=cfg, warn_kw=kw)
         if case.get("async"):
             yield dict(case, **{"async": False})
         if case.get("via", "runner") != "runner" and not any(case[w] == "rna" for w in ("out", "err")):
             yield dict(case, via="runner")
-        if case.get("opts_from") == "config":
-            yield dict(case, opts_from="kwarg")
+        if case.get("hide_from", "kwarg") != "kwarg":
+            yield dict(case, hide_from="kwarg")
+        if case.get("timeout_from", "kwarg") != "kwarg":
+            yield dict(case, timeout_from="kwarg")
+        # simpler sources of warn first: nothing configured, nothing passed
+        if cfg is not None:
+            yield dict(case, warn_cfg=None)
+            if cfg is True:
+                yield dict(case, warn_cfg=False)
+        if kw != "omitted":
+            yield dict(case, warn_kw="omitted")
+            if kw is True:
+                yield dict(case, warn_kw=False)
         if case.get("hide") is not None:
             yield dict(case, hide=None)
         if k == "scripted":
@@ -612,14 +757,10 @@ class C05(Prop):
                 yield dict(case, timed_out=False)
             if case["timeout"] is not None:
                 yield dict(case, timeout=None)
-            if case["warn"]:
-                yield dict(case, warn=False)
             for c in (0, 1):
                 if case["code"] != c:
                     yield dict(case, code=c)
         else:
-            if case["warn"]:
-                yield dict(case, warn=False)
             if case["how"] == "exit":
                 for c in (0, 1):
                     if case["n"] != c:
@@ -627,13 +768,23 @@ class C05(Prop):
 
     def mutate(self, case, rng):
         if case["kind"] == "scripted":
+            case = {x: y for x, y in case.items() if x not in ("warn", "opts_from")}
+            for cfg, kw in WARN_PAIRS:
+                yield dict(case, warn_cfg=cfg, warn_kw=kw)
             for _ in range(30):
-                yield dict(case, code=rng.choice(CODES), warn=rng.random() < 0.5,
+                cfg, kw = pick_warn(rng)
+                yield dict(case, code=rng.choice(CODES), warn_cfg=cfg, warn_kw=kw,
                            timed_out=rng.random() < 0.5, timeout=rng.choice([None, 5]))
         elif case["kind"] == "real":
+            case = {x: y for x, y in case.items() if x not in ("warn", "opts_from")}
             for pty in (False, True):
-                for warn in (False, True):
-                    yield dict(case, pty=pty, warn=warn)
+                for cfg, kw in WARN_PAIRS:
+                    yield dict(case, pty=pty, warn_cfg=cfg, warn_kw=kw)
+        elif case["kind"] == "program" and case["event"]["ev"] in ("warn_src", "warn_flag", "warn_config"):
+            for f in (False, True):
+                for cfg, kw in WARN_PAIRS:
+                    yield {"kind": "program", "event": {"ev": "warn_src", "flag": f, "cfg": cfg, "kw": kw,
+                                                        "code": case["event"].get("code") or 7}}
 
     # ------------------------------------------------------------ extra checks
     def extra_checks(self, tier, seed):
